@@ -1,4 +1,5 @@
 import Irismod.Props.C08
+import Irismod.Proofs.ServiceMonitor
 open Irismod Irismod.Service Irismod.Props.C08
 #print axioms respond_only_addressee_while_active
 #print axioms respond_inactive_rejected
@@ -28,3 +29,17 @@ open Irismod Irismod.Service Irismod.Props.C08
 #print axioms no_stale_entry_step
 -- non-vacuity: in the witness state the due batch is issued (a request becomes active), answering it is accepted exactly once
 #eval s!"nonvacuous {let s := newBatch w5 "c"; let rid : ReqId := ⟨"c", 2, 20, 0⟩; s.active == [rid] && (match stepRespond s "A0" (some rid) 200 .good true with | .ok s' => s'.active.isEmpty && (match stepRespond s' "A0" (some rid) 200 .good true with | .ok _ => false | .error _ => true) | .error _ => false)}"
+-- monitor soundness (Proofs/ServiceMonitor*.lean): every clause `drv-service monitor C08` evaluates holds on every model step; outcome memory (M08a) and schedule memory (M08b) invariants are preserved
+#print axioms Irismod.Proofs.ServiceMonitor.monitor_sound
+#print axioms Irismod.Proofs.ServiceMonitor.line_inv
+#print axioms Irismod.Proofs.ServiceMonitor.line_inv_reset
+#print axioms Irismod.Proofs.ServiceMonitor.c08_check_sound
+#print axioms Irismod.Proofs.ServiceMonitor.c08_outcome_sound
+#print axioms Irismod.Proofs.ServiceMonitor.c08_authority_sound
+#print axioms Irismod.Proofs.ServiceMonitor.c08_counters_sound
+#print axioms Irismod.Proofs.ServiceMonitor.c08_schedule_next_sound
+#print axioms Irismod.Proofs.ServiceMonitor.c08_schedule_inv
+#print axioms Irismod.Proofs.ServiceMonitor.c08_callbacks_sound
+#print axioms Irismod.Proofs.ServiceMonitor.isort_eq_of_perm
+#print axioms Irismod.Proofs.ServiceMonitor.sinv_apply
+#eval s!"nonvacuous monitor {Irismod.Proofs.ServiceMonitor.demoMonitor}"
